@@ -7,6 +7,8 @@
 import TuModel.Lemmas.MultiGenL
 import TuModel.Lemmas.MultiGenSeq
 import TuModel.Lemmas.MultiGenRR
+import TuModel.Model.Lines
+import TuModel.Lemmas.LinesL
 namespace Tu.C07
 open Tu Tu.MultiGenL
 
@@ -146,5 +148,131 @@ example : consume [[0,1],[0],[0,1,2]] [(0,0),(0,2),(1,0),(1,2),(2,2),(0,1)] = so
 example : consume [[0,1],[0]] [(0,0),(0,0)] = none := by decide
 example : consume [[0,1],[0]] [(0,1),(1,0)] = none := by decide
 example : rrSpec 7 [[0,1],[0],[0,1,2]] = [(0,0),(0,1),(0,2),(1,0),(1,2),(2,2)] := by decide
+
+/-! ### the line reader of the sources (`LossyUtf8Lines`, `count_lines`): Model/Lines.lean
+
+The declared length of a source is `count_lines` of its file, and its items are the lines the same
+reader yields.  A file is a byte list; `ls.flatMap (· ++ [10])` is the file whose lines are `ls`,
+every one of them ended by a line feed. -/
+
+open Tu.LinesL in
+/-- the chunks are a partition of the file -/
+theorem splitLF_flatten (b : List Nat) : (splitLF b).flatten = b := by
+  unfold splitLF
+  rw [splitLFGo_flatten]
+  simp
+
+open Tu.LinesL in
+/-- `read_until` never delivers an empty chunk (it returns 0 only at the end of the input) -/
+theorem splitLF_ne_nil (b : List Nat) : ∀ c ∈ splitLF b, c ≠ [] :=
+  splitLFGo_ne_nil b []
+
+open Tu.LinesL in
+theorem splitLF_terminated (ls : List (List Nat)) (h : ∀ l ∈ ls, 10 ∉ l) :
+    splitLF (ls.flatMap (· ++ [10])) = ls.map (· ++ [10]) := by
+  have := splitLF_lines ls h []
+  rw [splitLF_nil, List.append_nil, List.append_nil] at this
+  exact this
+
+open Tu.LinesL in
+theorem splitLF_unterminated (ls : List (List Nat)) (last : List Nat) (h : ∀ l ∈ ls, 10 ∉ l)
+    (hl : 10 ∉ last) (hne : last ≠ []) :
+    splitLF (ls.flatMap (· ++ [10]) ++ last) = ls.map (· ++ [10]) ++ [last] := by
+  rw [splitLF_lines ls h last, splitLF_tail last hl hne]
+
+open Tu.LinesL in
+/-- a file whose every line ends with a line feed yields exactly its lines, one trailing carriage
+return removed -/
+theorem lossyLines_terminated (ls : List (List Nat)) (h : ∀ l ∈ ls, 10 ∉ l) :
+    lossyLines (ls.flatMap (· ++ [10])) = ls.map stripCR := by
+  unfold lossyLines
+  rw [splitLF_terminated ls h, List.map_map]
+  apply List.map_congr_left
+  intro l _
+  exact lossyLine_line l
+
+open Tu.LinesL in
+/-- the quirk, stated outright: the unterminated last line loses its last byte (`buf.pop()` is
+unconditional) -/
+theorem lossyLines_unterminated (ls : List (List Nat)) (last : List Nat) (h : ∀ l ∈ ls, 10 ∉ l)
+    (hl : 10 ∉ last) (hne : last ≠ []) :
+    lossyLines (ls.flatMap (· ++ [10]) ++ last) = ls.map stripCR ++ [stripCR last.dropLast] := by
+  unfold lossyLines
+  rw [splitLF_unterminated ls last h hl hne, List.map_append, List.map_map]
+  congr 1
+  apply List.map_congr_left
+  intro l _
+  exact lossyLine_line l
+
+theorem countLines_terminated (ls : List (List Nat)) (h : ∀ l ∈ ls, 10 ∉ l) :
+    countLines (ls.flatMap (· ++ [10])) = ls.length := by
+  unfold countLines
+  rw [splitLF_terminated ls h, List.length_map]
+
+theorem countLines_unterminated (ls : List (List Nat)) (last : List Nat) (h : ∀ l ∈ ls, 10 ∉ l)
+    (hl : 10 ∉ last) (hne : last ≠ []) :
+    countLines (ls.flatMap (· ++ [10]) ++ last) = ls.length + 1 := by
+  unfold countLines
+  rw [splitLF_unterminated ls last h hl hne]
+  simp
+
+/-- the declared length of a source is the number of items its reader yields -/
+theorem countLines_eq_length_lossyLines (b : List Nat) : countLines b = (lossyLines b).length := by
+  unfold countLines lossyLines
+  rw [List.length_map]
+
+/-- every byte list has exactly one of the two shapes (`last = []`: terminated or empty), so the
+theorems above cover all inputs -/
+theorem splitLF_cases (b : List Nat) :
+    ∃ (ls : List (List Nat)) (last : List Nat),
+      (∀ l ∈ ls, 10 ∉ l) ∧ 10 ∉ last ∧ b = ls.flatMap (· ++ [10]) ++ last := by
+  induction b with
+  | nil => exact ⟨[], [], by simp, by simp, by simp⟩
+  | cons c b ih =>
+    obtain ⟨ls, last, h1, h2, h3⟩ := ih
+    by_cases hc : c = 10
+    · subst hc
+      refine ⟨[] :: ls, last, ?_, h2, ?_⟩
+      · intro l hl
+        rcases List.mem_cons.mp hl with e | e
+        · subst e; simp
+        · exact h1 l e
+      · rw [h3]; simp
+    · cases ls with
+      | nil =>
+        refine ⟨[], c :: last, by simp, ?_, ?_⟩
+        · intro hm
+          rcases List.mem_cons.mp hm with e | e
+          · exact hc e.symm
+          · exact h2 e
+        · rw [h3]; simp
+      | cons l ls =>
+        refine ⟨(c :: l) :: ls, last, ?_, h2, ?_⟩
+        · intro x hx
+          rcases List.mem_cons.mp hx with e | e
+          · subst e
+            intro hm
+            rcases List.mem_cons.mp hm with e' | e'
+            · exact hc e'.symm
+            · exact h1 l (by simp) e'
+          · exact h1 x (List.mem_cons_of_mem _ e)
+        · rw [h3]; simp
+
+/-! ### non-vacuity -/
+
+-- "a\nb\r\n"
+example : lossyLines [97, 10, 98, 13, 10] = [[97], [98]] := by decide
+example : countLines [97, 10, 98, 13, 10] = 2 := by decide
+example : splitLF [97, 10, 98, 13, 10] = [[97, 10], [98, 13, 10]] := by decide
+-- "a\nb": the quirk, the last line loses its only byte
+example : lossyLines [97, 10, 98] = [[97], []] := by decide
+example : countLines [97, 10, 98] = 2 := by decide
+-- "", "\n", "\r\n", "x\r"
+example : lossyLines [] = [] ∧ countLines [] = 0 := by decide
+example : lossyLines [10] = [[]] ∧ countLines [10] = 1 := by decide
+example : lossyLines [13, 10] = [[]] ∧ countLines [13, 10] = 1 := by decide
+example : lossyLines [120, 13] = [[120]] ∧ countLines [120, 13] = 1 := by decide
+-- only one carriage return is removed
+example : lossyLines [120, 13, 13, 10] = [[120, 13]] := by decide
 
 end Tu.C07
